@@ -1,0 +1,14 @@
+//go:build verif
+
+package aggoracle
+
+import "context"
+
+// VerifTick runs one body of Start's loop (including its error handling).
+func (a *AggOracle) VerifTick(ctx context.Context, blockNumToFetch *uint64) error {
+	err := a.processLatestGER(ctx, blockNumToFetch)
+	if err != nil {
+		a.handleGERProcessingError(err, *blockNumToFetch)
+	}
+	return err
+}
